@@ -1,36 +1,39 @@
-/* C03 S3b: associativity and operand structure of binary operator chains - ONE LEVEL of the real recursive ChaiScript_Parser::Operator(level),
+/* C03 S3b: associativity and operand structure of operator chains - ONE LEVEL of the real recursive ChaiScript_Parser::Operator(level),
    entered at level L.  The recursive calls go through the translator's self-call hook: a call for level L+1 is the induction hypothesis ("parses
-   one operand made of tighter-binding operators and pushes its node", oracle), a call for level L again (the else branch of the conditional) runs
-   the real function again (nesting bounded by the two operators of the harness), a call for ANY OTHER level is a violation - so every level
-   parses its operands exactly one level tighter, which with the table of S3 is precedence climbing.  At the last level (Prefix) the operand is Value().
-   The token-level pieces are contract stubs: Operator_Helper(level) matches an operator of THIS level (oracle: up to two in a
-   row, texts symbolic) and none at the tighter levels below it, Value() parses one operand (or fails, oracle) and pushes its node,
-   build_match<Node>(prev_top, text) is a recorder that replaces the stack entries from prev_top on by one new node, ':' of the ternary is an oracle.
-   Asserted: `a op1 b op2 c` is built as ((a op1 b) op2 c) - each operator node gets exactly [everything built so far at this level, the next
-   operand] and the text of its own operator; levels 3..10 build Binary_Operator nodes, level 2 Logical_And, level 1 Logical_Or, level 0 the
-   ternary If with three children, associating to the RIGHT as in C (a ? b : c ? d : e is a ? b : (c ? d : e)); an operator without right operand is an eval_error; nothing is built when no operator follows; the result
-   is "parsed" iff the first operand parsed; parse depth is balanced. */
+   one operand made of tighter-binding operators and pushes its node"), a call for level L again (the branches of the conditional) runs the real
+   function again, a call for ANY OTHER level is a violation - so every level parses its operands exactly one level tighter, which with the
+   table of S3/S3c is precedence climbing.  At the last level (Prefix) the operand is Value().
+   The input is a TOKEN STREAM MODEL indexed by position = number of operands consumed so far: at position k an operand can be parsed or not
+   (value_ok[k]); after operand k there is an operator of this level (op_after[k], spelling op_text[k]), a ':' (colon_after[k]) or neither - asking
+   twice at the same position gives the same answer.  At most two operators in the stream (bound).  Operator_Helper (inlined; the stub is the
+   any_of call in it), Value(), Symbol(":"), build_match<Node>(prev_top, text) (recorder: replaces the stack entries from prev_top on by one
+   new node) are contract stubs.
+   Asserted against a reference parser of the C grammar written here:
+     binary levels:   a op1 b op2 c  is  ((a op1 b) op2 c); levels 3..10 build Binary_Operator nodes, 2 Logical_And, 1 Logical_Or, each with its own spelling
+     conditional:     cond := operand [ '?' cond ':' cond ]  - three children; a ? b : c ? d : e is a ? b : (c ? d : e) (right associative) and
+                      a ? b ? c : d : e is a ? (b ? c : d) : e (the middle operand is a full conditional), as in C
+     an operator without its operand, or '?' without ':', is eval_error; nothing is built when no operator follows; "parsed" iff the first operand
+     parsed; exactly one node remains on the match stack; parse depth balanced. */
 #include "parser_model.h"
 #define NV 6
 static struct { char* vptr; char pad[SZ_Node]; } vnodes[NV], built[3];
 static char* slots[8]; static int n_slots;
 static void sync(char* self) { PM(self)->match_stack.b = (char*)&slots[0]; PM(self)->match_stack.e = (char*)&slots[n_slots]; PM(self)->match_stack.c = (char*)&slots[8]; }
-static int n_values, value_ok[NV], n_ops, op_present[3]; static char op_text[3]; static int rec_depth, q[4];
+static int n_values, n_helper, value_ok[NV], op_after[NV], colon_after[NV]; static char op_text[NV]; static int rec_depth, q[4];
 static int depth; void DC_CTOR(char* self, char* parser) { *(char**)self = parser; depth++; } void DC_DTOR(char* self) { depth--; }
-uint8_t VALUE(char* self) { int i = n_values < NV ? n_values : NV - 1; n_values++; if (!value_ok[i]) return 0; if (n_slots < 8) slots[n_slots] = (char*)&vnodes[i]; n_slots++; sync(self); return 1; }
-/* Operator_Helper itself is inlined; its body is m_operator_matches.any_of(level, [&oper, this]{...}) - the stub stands for that call, the closure's first capture is &oper */
+uint8_t VALUE(char* self) { int i = n_values < NV ? n_values : NV - 1; if (n_values >= NV || !value_ok[i]) return 0; n_values++; if (n_slots < 8) slots[n_slots] = (char*)&vnodes[i]; n_slots++; sync(self); return 1; }
 uint8_t HELPER(char* matches, uint64_t level, char* closure) {
-  char* oper = *(char**)closure;
-  if (level != LEVEL) return 0;                                   /* no operator of a tighter level follows (bound of this harness: one level at a time) */
-  int i = n_ops < 3 ? n_ops : 2; n_ops++;
+  char* oper = *(char**)closure; n_helper++;
+  if (level != LEVEL) return 0;                                   /* no operator of a tighter level follows (one level at a time) */
   /* q[frame] counts the queries of the current Operator(L) frame concretely (it cannot differ between merged paths), so the unrolling of the operator loop is
-     bounded syntactically; that the third query of a frame is never answered "yes" follows from the total of two operators and is asserted, not assumed */
+     bounded syntactically; that a third query of one frame is never answered "yes" follows from the total of two operators and is asserted, not assumed */
   int j = q[rec_depth] < 2 ? q[rec_depth] : 2; q[rec_depth] = j + 1;
-  if (j >= 2) { __CPROVER_assert(i >= 2, "MODEL: the per-frame bound on operator matches is implied by the total number of operators"); return 0; }
-  if (i >= 2 || !op_present[i]) return 0;
-  struct sso_string* s = (struct sso_string*)oper; s->p = s->buf; s->n = 1; s->buf[0] = op_text[i]; s->buf[1] = 0; return 1; }
+  int k = n_values - 1; int yes = k >= 0 && k < NV && op_after[k];
+  if (j >= 2) { __CPROVER_assert(!yes, "MODEL: the per-frame bound on operator matches is implied by the total number of operators"); return 0; }
+  if (!yes) return 0;
+  struct sso_string* s = (struct sso_string*)oper; s->p = s->buf; s->n = 1; s->buf[0] = op_text[k]; s->buf[1] = 0; return 1; }
 uint8_t EOL(char* self) { return 0; }
-static int colon_ok; uint8_t SYMBOL(char* self, char* sym, uint8_t disallow) { return (uint8_t)colon_ok; }
+uint8_t SYMBOL(char* self, char* sym, uint8_t disallow) { int k = n_values - 1; return (uint8_t)(k >= 0 && k < NV && colon_after[k]); }
 void EE_CTOR3(char* self, char* why, char* where, char* fname) { eval_error_ctor_calls++; }
 enum { BK_BINARY = 1, BK_AND, BK_OR, BK_IF };
 static int n_built, b_kind[3], b_n[3]; static uint64_t b_top[3]; static char* b_child[3][3]; static char b_text[3];
@@ -42,51 +45,69 @@ static void record(char* self, int kind, uint64_t top, char* text) {
 uint8_t OPERATOR(char* self, uint64_t level);
 uint8_t operator_rec(char* self, uint64_t level) {
   if (level == LEVEL + 1) return VALUE(self);                       /* induction hypothesis: one operand of the tighter levels */
-  __CPROVER_assert(level == LEVEL && LEVEL == 0, "C03: operands are parsed at the next tighter level (only the else branch of the conditional at its own level)");
+  __CPROVER_assert(level == LEVEL && LEVEL == 0, "C03: operands are parsed at the next tighter level (only the branches of the conditional at its own level)");
   if (level != LEVEL) { __CPROVER_assume(0); return 0; }
-  if (rec_depth >= 2) { __CPROVER_assert(0, "BOUND: more nested conditionals than the harness has operators"); __CPROVER_assume(0); return 0; }
+  if (rec_depth >= 2) { __CPROVER_assert(0, "BOUND: more nested conditionals than the stream has operators"); __CPROVER_assume(0); return 0; }
   rec_depth++; q[rec_depth] = 0; uint8_t r = OPERATOR(self, level); rec_depth--; return r;
 }
+/* ---- reference parser (C grammar) over the same stream; nodes are named like the recorder names them: operands by position, built nodes in post-order */
+static int r_pos, r_built, r_err; static char* r_child[3][3]; static char r_text[3];
+static char* ref_cond(int d) {
+  if (r_pos >= NV || !value_ok[r_pos]) return 0;
+  char* a = (char*)&vnodes[r_pos]; r_pos++;
+  if (d >= 3 || !op_after[r_pos - 1]) return a;
+  char* t = ref_cond(d + 1); if (!t || r_err) { r_err = 1; return a; }
+  if (!colon_after[r_pos - 1]) { r_err = 1; return a; }
+  char* e = ref_cond(d + 1); if (!e || r_err) { r_err = 1; return a; }
+  int j = r_built < 3 ? r_built : 2; r_built++; r_child[j][0] = a; r_child[j][1] = t; r_child[j][2] = e; return (char*)&built[j]; }
+static char* ref_binary(void) {
+  if (!value_ok[0]) return 0;
+  char* acc = (char*)&vnodes[0]; r_pos = 1;
+  for (int i = 0; i < 2; i++) { if (!op_after[r_pos - 1]) break; char t = op_text[r_pos - 1]; if (r_pos >= NV || !value_ok[r_pos]) { r_err = 1; break; }
+    int j = r_built; r_built++; r_child[j][0] = acc; r_child[j][1] = (char*)&vnodes[r_pos]; r_child[j][2] = 0; r_text[j] = t; r_pos++; acc = (char*)&built[j]; }
+  return acc; }
 char* __VERIF_exc_type(void);
 int main(void) {
   static struct parser_model PMODEL; char* parser = (char*)&PMODEL; static char buf[4]; parser_init(parser, buf, 4, 0, 1, 1, 1);
   static char* pre = (char*)0; n_slots = 1; slots[0] = (char*)&pre;            /* something already on the match stack: prev_stack_top = 1 */
   sync(parser);
-  for (int i = 0; i < NV; i++) value_ok[i] = nondet_u8() & 1; for (int i = 0; i < 3; i++) { op_present[i] = nondet_u8() & 1; op_text[i] = (char)nondet_u8(); } colon_ok = nondet_u8() & 1;
+  int nops = 0;
+  for (int i = 0; i < NV; i++) { value_ok[i] = nondet_u8() & 1; op_after[i] = nondet_u8() & 1; colon_after[i] = nondet_u8() & 1; op_text[i] = (char)nondet_u8(); nops += op_after[i];
+    __CPROVER_assume(!(op_after[i] && colon_after[i])); }                          /* one token follows an operand */
+  __CPROVER_assume(nops <= 2);                                                     /* bound: at most two operators of this level in the stream */
   uint8_t r = OPERATOR(parser, LEVEL);
   __CPROVER_assert(depth == 0, "C01: the parse depth counter is balanced");
 #if LEVEL == 11
-  __CPROVER_assert(!__exc_pending && n_ops == 0 && n_built == 0 && n_values == 1 && (r & 1) == (value_ok[0] & 1) && n_slots == 1 + (value_ok[0] & 1), "C03: at the tightest level an expression is exactly one Value()");
+  __CPROVER_assert(!__exc_pending && n_helper == 0 && n_built == 0 && (r & 1) == (value_ok[0] & 1) && n_slots == 1 + (value_ok[0] & 1), "C03: at the tightest level an expression is exactly one Value()");
   if (r & 1) __CPROVER_assert(0, "witness: plain operand"); else __CPROVER_assert(0, "witness: no operand");
   return 0;
 #endif
-  /* reference: a (op b)* at this level, ternary: a ? b : c */
-  int nops = 0; for (int i = 0; i < 2; i++) { if (op_present[i]) nops++; else break; }
-  if (!value_ok[0]) { __CPROVER_assert(!__exc_pending && !(r & 1) && n_built == 0 && n_slots == 1, "C03: no operand, no expression; the match stack is untouched"); __CPROVER_assert(0, "witness: no operand"); return 0; }
-  int built_expect = 0, err = 0, vi = 1;
-  for (int i = 0; i < nops && !err; i++) {
-    if (!value_ok[vi]) { err = 1; break; } vi++;
 #if LEVEL == 0
-    if (!colon_ok) { err = 1; break; } if (!value_ok[vi]) { err = 1; break; } vi++;      /* the else branch starts with an operand */
-#endif
-    built_expect++;
-  }
-  if (err) { __CPROVER_assert(__exc_pending && __VERIF_exc_type() == (char*)&g__ZTIN10chaiscript9exception10eval_errorE, "C03: an operator without its operand(s) is a syntax error (eval_error)"); __CPROVER_assert(0, "witness: incomplete expression"); return 0; }
-  __CPROVER_assert(!__exc_pending && (r & 1) && n_built == built_expect && n_slots == 2, "C03: a chain of operators of one level yields ONE expression node on the match stack");
-  const int want_kind = LEVEL == 0 ? BK_IF : LEVEL == 1 ? BK_OR : LEVEL == 2 ? BK_AND : BK_BINARY;
-  for (int j = 0; j < 2; j++) if (j < built_expect) {
-#if LEVEL == 0
-    /* C: the conditional operator associates to the RIGHT - a ? b : c ? d : e is a ? b : (c ? d : e); the innermost conditional is built first */
-    int o = built_expect - 1 - j;
-    __CPROVER_assert(b_kind[j] == BK_IF && b_top[j] == (uint64_t)(1 + 2 * o), "C03: each conditional builds a ternary node over its own condition, then-value and else-value");
-    __CPROVER_assert(b_n[j] == 3 && b_child[j][0] == (char*)&vnodes[2 * o] && b_child[j][1] == (char*)&vnodes[2 * o + 1] && b_child[j][2] == (j == 0 ? (char*)&vnodes[2 * o + 2] : (char*)&built[j - 1]),
-                     "C03: c ? a : b has exactly the children condition, then-value, else-value, and a conditional in the else position belongs to the else branch (right associativity, as in C)");
+  char* want = ref_cond(0);
 #else
-    __CPROVER_assert(b_kind[j] == want_kind && b_top[j] == 1, "C03: each operator of the level builds the node kind of that level over everything parsed at this level so far");
-    __CPROVER_assert(b_n[j] == 2 && b_child[j][0] == (j == 0 ? (char*)&vnodes[0] : (char*)&built[j - 1]) && b_child[j][1] == (char*)&vnodes[1 + j], "C03: binary operators of one level associate to the left: (a op1 b) op2 c");
-    __CPROVER_assert(b_text[j] == op_text[j], "C03: each operator node carries the spelling of its own operator");
+  char* want = ref_binary();
+#endif
+  if (!want) { __CPROVER_assert(!__exc_pending && !(r & 1) && n_built == 0 && n_slots == 1, "C03: no operand, no expression; the match stack is untouched"); __CPROVER_assert(0, "witness: no operand"); return 0; }
+  if (r_err) { __CPROVER_assert(__exc_pending && __VERIF_exc_type() == (char*)&g__ZTIN10chaiscript9exception10eval_errorE, "C03: an operator without its operand(s), or a conditional without ':', is a syntax error (eval_error) - and only that is"); __CPROVER_assert(0, "witness: incomplete expression"); return 0; }
+  __CPROVER_assert(!__exc_pending && (r & 1), "C03: every expression of the C grammar at this level is accepted");
+  __CPROVER_assert(n_built == r_built && n_slots == 2 && slots[1] == want && n_values == r_pos, "C03: the expression becomes ONE node on the match stack - the one the C grammar gives - and exactly its tokens are consumed");
+  const int want_kind = LEVEL == 0 ? BK_IF : LEVEL == 1 ? BK_OR : LEVEL == 2 ? BK_AND : BK_BINARY;
+  for (int j = 0; j < 2; j++) if (j < r_built) {
+    __CPROVER_assert(b_kind[j] == want_kind, "C03: each operator of the level builds the node kind of that level");
+#if LEVEL == 0
+    __CPROVER_assert(b_n[j] == 3 && b_child[j][0] == r_child[j][0] && b_child[j][1] == r_child[j][1] && b_child[j][2] == r_child[j][2],
+                     "C03: c ? a : b has exactly the children condition, then-value, else-value; a conditional after ':' belongs to the else branch (right associativity), one after '?' to the then branch, as in C");
+#else
+    __CPROVER_assert(b_n[j] == 2 && b_child[j][0] == r_child[j][0] && b_child[j][1] == r_child[j][1], "C03: binary operators of one level associate to the left: (a op1 b) op2 c");
+    __CPROVER_assert(b_text[j] == r_text[j], "C03: each operator node carries the spelling of its own operator");
 #endif
   }
-  if (built_expect == 2) __CPROVER_assert(0, "witness: chain of two"); else if (built_expect == 1) __CPROVER_assert(0, "witness: one operator"); else __CPROVER_assert(0, "witness: plain operand");
+  if (r_built == 2) {
+#if LEVEL == 0
+    if (r_child[1][2] == (char*)&built[0]) __CPROVER_assert(0, "witness: conditional in the else branch"); else __CPROVER_assert(0, "witness: conditional in the then branch");
+#else
+    __CPROVER_assert(0, "witness: chain of two");
+#endif
+  } else if (r_built == 1) __CPROVER_assert(0, "witness: one operator"); else __CPROVER_assert(0, "witness: plain operand");
   return 0;
 }
